@@ -139,5 +139,84 @@ def examples(tier):
     return out
 
 
+def smooth_curve(n, kind, a, noise_seed):
+    """Deterministic long miss-ratio-like curve (the case stores only its parameters)."""
+    x = np.arange(1, n + 1, dtype=float)
+    if kind == 'hyperbola':
+        y = a / (x + a)
+    elif kind == 'exp':
+        y = np.exp(-x / (a * n / 50.0))
+    elif kind == 'steps':
+        y = np.floor((1.0 - x / n) * a) / a
+    else:
+        y = 1.0 / np.sqrt(x / a + 1.0)
+    if noise_seed:
+        # cheap deterministic ripple (no RNG): breaks monotonicity a little
+        y = y + 1e-3 * np.sin(x * (0.37 + 0.01 * noise_seed)) * y
+        y = np.maximum(y, 0.0)
+    return np.column_stack((x, y))
+
+
+@st.composite
+def huge_cases(draw, tier):
+    """Long traces (fast paths, windowing, chunking only show above a few thousand points)."""
+    base = draw(st.sampled_from([4096, 8192, 16384, 5000, 9001]))
+    n = base + draw(st.sampled_from([0, 1, 1, 2, 17])) if draw(st.booleans()) else draw(st.integers(4097, 20000 if tier == 'quick' else 60000))
+    simp = draw(st.sampled_from(['rdp', 'rdp', 'rdp', 'grdp', 'rdp_fixed', 'mp_grdp', 'min_point_rdp']))
+    case = {'family': 'huge', 'n': n, 'curve': draw(st.sampled_from(['hyperbola', 'exp', 'steps', 'sqrt'])),
+            'a': draw(st.sampled_from([3.0, 20.0, 100.0])), 'ripple': draw(st.integers(0, 3)), 'simplifier': simp,
+            'metric': draw(st.sampled_from(S.METRICS)), 'distance': draw(st.sampled_from(S.DISTANCES)),
+            'order': draw(st.sampled_from(S.ORDERS)), 'length': draw(st.integers(2, 12)), 'ts': [0.1, 0.05]}
+    case['t'] = draw(st.sampled_from([0.9, 0.99] if case['metric'] == 'r2' else [0.01, 0.05, 0.2]))
+    if simp in ('grdp', 'mp_grdp'):     # keep the global variants cheap: coarse thresholds only
+        case['t'] = 0.5 if case['metric'] == 'r2' else 0.3
+    return case
+
+
+def oracle_huge(case, rec):
+    p = smooth_curve(case['n'], case['curve'], case['a'], case['ripple'])
+    n = len(p)
+    rec.tag('huge:' + case['simplifier'], 'huge:n>%d' % (4096 * (n // 4096)))
+    out = call_simplifier(case, rec, p)
+    rec.nontrivial = True
+    if out is FAILED:
+        return
+    well_formed(rec, out, n)
+
+
+@st.composite
+def extreme_cases(draw, tier):
+    """Huge / tiny magnitudes far beyond the ordinary generator: only termination and
+    well-formedness are claimed there (C01's quantifier names them explicitly)."""
+    c = draw(S.curves(2, 24, scales=False, families=['noise', 'mono_dec', 'convex', 'pwl_dyadic', 'plateau', 'flat', 'steps', 'quant']))
+    case = draw(cases(tier))
+    case['pts'] = c['pts']
+    case['family'] = 'extreme'
+    n = len(c['pts'])
+    case['length'] = min(case.get('length', 3), n + 3)
+    case['kx'] = draw(st.sampled_from([-170, -165, -150, -100, -30, 0, 0, 20, 100, 150]))
+    case['ky'] = draw(st.sampled_from([-300, -200, -165, -100, 0, 0, 100, 160, 250, 300]))
+    return case
+
+
+def oracle_extreme(case, rec):
+    p = np.array(case['pts'], dtype=float)
+    with np.errstate(all='ignore'):
+        p = p * np.array([10.0 ** case['kx'], 10.0 ** case['ky']])
+    n = len(p)
+    ok = np.all(np.isfinite(p)) and np.all(np.diff(p[:, 0]) > 0)
+    if not ok:
+        rec.tag('extreme:not-representable-skipped')
+        return
+    rec.tag('extreme:kx=%d' % case['kx'], 'extreme:ky=%d' % case['ky'], 'simplifier:' + case['simplifier'])
+    out = call_simplifier(case, rec, p)
+    rec.nontrivial = n >= 3
+    if out is FAILED:
+        return
+    well_formed(rec, out, n)
+
+
 SUBS = [Sub('simplify', oracle, strategy=cases, budget={'quick': 6400, 'thorough': 120000},
-            examples=examples)]
+            examples=examples),
+        Sub('huge', oracle_huge, strategy=huge_cases, budget={'quick': 96, 'thorough': 960}),
+        Sub('extreme', oracle_extreme, strategy=extreme_cases, budget={'quick': 3200, 'thorough': 48000})]
